@@ -32,7 +32,7 @@ class RegexV:
 
 
 def parse_regex(e, chars):
-    pos = [0]; n = len(chars)
+    pos = [0]; n = len(chars); ngroups = [0]
     def peek(): return chars[pos[0]] if pos[0] < n else None
     def is_c(c, lit):
         if c is None: return False
@@ -59,14 +59,17 @@ def parse_regex(e, chars):
     def atom():
         c = peek(); pos[0] += 1
         if is_c(c, '('):
+            gi = None
             if peek() is not None and is_c(peek(), '?'):
                 pos[0] += 1
                 if not is_c(peek(), ':'): raise Unsupported('group flags')
                 pos[0] += 1
+            else:
+                ngroups[0] += 1; gi = ngroups[0]
             r = alt()
             if not is_c(peek(), ')'): raise Panic('regex parse error: unclosed group')
             pos[0] += 1
-            return ('group', r)
+            return ('group', r, gi)
         if is_c(c, '['): return klass()
         if is_c(c, '.'): return ('any',)
         if is_c(c, '^'): return ('bol',)
@@ -131,7 +134,17 @@ def match_node(e, node, chars, i, k):
             r = match_node(e, b, chars, i, k)
             if r is not None: return r
         return None
-    if t == 'group': return match_node(e, node[1], chars, i, k)
+    if t == 'group':
+        gi = node[2]
+        if gi is None or CAPS is None: return match_node(e, node[1], chars, i, k)
+        def kk(j):
+            old = CAPS[0].get(gi); CAPS[0][gi] = (i, j)
+            r = k(j)
+            if r is None:
+                if old is None: CAPS[0].pop(gi, None)
+                else: CAPS[0][gi] = old
+            return r
+        return match_node(e, node[1], chars, i, kk)
     if t == 'lit':
         if i < n and e.branch(s_eq(chars[i], node[1])): return k(i + 1)
         return None
@@ -166,11 +179,20 @@ def match_node(e, node, chars, i, k):
     raise Unsupported('regex node ' + t)
 
 
-def regex_find(e, rx, st, start=0):
+CAPS = None
+
+
+def regex_find(e, rx, st, start=0, want_caps=False):
+    global CAPS
     chars = st.chars
     for i in range(start, len(chars) + 1):
-        r = match_node(e, rx.ast, chars, i, lambda j: (j,))
-        if r is not None: return (i, r[0])
+        CAPS = [{}] if want_caps else None
+        try:
+            r = match_node(e, rx.ast, chars, i, lambda j: (j,))
+            caps = dict(CAPS[0]) if want_caps else None
+        finally:
+            CAPS = None
+        if r is not None: return (i, r[0], caps) if want_caps else (i, r[0])
     return None
 
 
@@ -207,3 +229,21 @@ def _(e, c, a, raw):
 @model('re:^<regex::Error as (std::fmt::|core::fmt::)?(Display|Debug)>::fmt$')
 def _(e, c, a, raw):
     e.deref(a[1]).buf.extend(mkstr('<regex error>').chars); return OK(UNIT)
+
+
+@model('regex::Regex::captures', 'Regex::captures')
+def _(e, c, a, raw):
+    st = S(e, a[1]); r = regex_find(e, e.deref(a[0]), st, want_caps=True)
+    if r is None: return NONE()
+    groups = dict(r[2]); groups[0] = (r[0], r[1])
+    return SOME(Agg('Captures', [st, groups]))
+@model('regex::Captures::get', 'Captures::get', "Captures::<'_>::get")
+def _(e, c, a, raw):
+    cp = e.deref(a[0]); g = cp.slots[1].get(a[1])
+    if g is None: return NONE()
+    return SOME(Agg('Match', [cp.slots[0], g[0], g[1]]))
+@model('re:^<(regex::)?Captures<.*> as Index<usize>>::index$')
+def _(e, c, a, raw):
+    cp = e.deref(a[0]); g = cp.slots[1].get(a[1])
+    if g is None: raise Panic('no group at index %r' % (a[1],))
+    return Str(cp.slots[0].chars[g[0]:g[1]])
